@@ -44,6 +44,10 @@ package crashmonitor
 //@   at call sentinel#1: after ghost $child = int(result)
 //@   at call getPC#1: after ghost $rawpc = int(result0)
 //@   at call append#1: assert childSentinel == uint64($child) && uint64(arg1[0]) == uint64($rawpc) - parentSentinel + childSentinel + ite(prevSymbol == "runtime.sigpanic", uint64(1), uint64(0))
+// Every line is looked at: the scan advances by exactly one line per turn, so no
+// line (in particular not the blank line or the "created by" line that ends the
+// running goroutine's block) is stepped over without being classified.
+//@   at loop 1 end: assert 0 <= i && i < len(lines) && line == lines[i]
 //@   loop 1: invariant 0 <= i && i <= len(lines)
 //@   loop 1: decreases len(lines)-i
 //@   modifies $child, $rawpc
